@@ -58,6 +58,32 @@ class AbsDictT(T.T):
         return f"AbsDictT({self.label})"
 
 
+class ObjInvT(T.T):
+    """A mutable repository object kept in a loop: its attributes are arbitrary values of the declared types satisfying the
+    invariant clause `inv` (a clause text over `self`).  Havoc happens IN PLACE (the object is shared with the caller)."""
+
+    def __init__(self, obj_type, inv):
+        self.obj_type, self.inv = obj_type, inv
+
+    def __repr__(self):
+        return f"ObjInvT({self.obj_type.cls}: {self.inv[:40]}...)"
+
+
+def _inv_formula(it, obj, shape):
+    from .contract import Clause
+    from .interp import Env
+    from . import clauses
+    env = Env(None, clauses.spec_env(it))
+    env.set("self", obj)
+    return clauses.eval_clause(it, Clause("inv", shape.inv, "invariant"), env)
+
+
+def havoc_object(it, obj, shape: ObjInvT, name):
+    for an, at in shape.obj_type.attrs.items():
+        obj.attrs[an] = T.make_value(it, at, f"{name}.{an}")
+    it.assume(_inv_formula(it, obj, shape))
+
+
 class AnyOfClassT(T.T):
     """A class object out of a list (for `cls` parameters)."""
 
@@ -198,6 +224,10 @@ def conforms(it, v, shape) -> bool:
         shape = shape()
     if isinstance(v, P.VPlain) and v.val is not None:
         v = v.val
+    if isinstance(shape, ObjInvT):
+        if not isinstance(v, VObj):
+            return False
+        return it.must(_inv_formula(it, v, shape))
     if isinstance(shape, T.Int):
         if isinstance(v, VBool):
             v = it.to_int(v)
@@ -350,6 +380,21 @@ def note_obligation(it, label, ok: bool, detail=""):
     if not ok:
         it.shape_failures = getattr(it, "shape_failures", [])
         it.shape_failures.append((label, detail))
+
+
+def note_goal(it, label, formula):
+    """An invariant obligation that is a FORMULA (object invariants): discharged by the prover at the end of the path."""
+    it.call_obligations.append((label, formula, list(it.facts), list(it.pc)))
+
+
+def check_shape(it, label, v, shape, detail=""):
+    """Record the obligation `v conforms to shape` (formula for object invariants, structural otherwise)."""
+    if isinstance(shape, ObjInvT):
+        if not isinstance(v, VObj):
+            return note_obligation(it, label, False, detail)
+        return note_goal(it, label, _inv_formula(it, v, shape))
+    ok = v is not None and conforms(it, v, shape)
+    note_obligation(it, label, ok, detail)
 
 
 def check_store(it, pmap, key, val):
